@@ -272,3 +272,185 @@ def custom_set(tier):
     for n in L.wide_bases(tier):
         structs += L.pack(n, custom_fields(n, tier), 'CUSTOM', per=30, passes=[('alpha', 'alpha')])
     return structs
+
+
+# ------------------------------------------------------------------------------------------------
+# C11 / C12: mixed layouts for the product machine; C13: builder layouts
+
+def mix_struct(n):
+    """one struct per base: contiguous fields touching bit N-1, overlapping fields, an array whose last element
+    ends at N-1, a multi-range field using the top bit, overlapping array elements, signed/enum fields,
+    a full-width field, a write-only and a read-only field"""
+    fs = []
+
+    def add(ranges, kind, arr=None, access='rw', **kw):
+        f = Field(ranges, kind, arr=arr, access=access, family='MIX', **kw)
+        if f.top() <= n and all(l >= 1 and lo >= 0 for lo, l in ranges):
+            fs.append(f)
+
+    add([(0, 1)], 'b')
+    if n > 1:
+        add([(n - 1, 1)], 'b')
+    if n >= 3:
+        add([(n - 3, 3)], 'u')
+    if n >= 2:
+        add([(0, min(n, 5))], 'u' if min(n, 5) not in NATIVE else 'n')
+    if n >= 4:
+        add([(2, min(4, n - 2))], 'u')
+        K = min(3, n // 2)
+        add([(n - 2 * K, 2)], 'u', arr=(K, 2), stride_explicit=False)
+        add([(n - 1, 1), (0, 2)], 'u')
+    if n >= 5:
+        add([(0, 1), (2, 1)], 'u', arr=(2, 2))                  # elements {0,2} and {2,4}: overlapping elements
+        add([(1, 1), (3, 1)], 'u', arr=(min(2, (n - 4) // 1 + 1), 1))   # interleaving elements {1,3},{2,4}
+    if n >= 8:
+        add([(n - 8, 8)], 'i')
+        add([(n - 8, 8)], 'n', access='r')
+    if n >= 16:
+        add([(n - 16, 16)], 'i')
+    k = 'n' if n in NATIVE else 'u'
+    add([(0, n)], k)
+    if n >= 3:
+        add([(1, 2)], 'e', enum=ex_enum(2))
+        add([(n - 3, 3)], 'o', enum=ne_enum(3))
+    if n >= 2:
+        add([(0, 2)], 'u', access='w')
+    if 2 <= n <= 16:
+        add([(0, 1)], 'u', arr=(n, 1), stride_explicit=(n % 2 == 0))
+    elif n > 16:
+        add([(n - 8, 1)], 'b', arr=(8, 1), stride_explicit=(n % 2 == 0))     # bool array whose last element is bit N-1
+    if n >= 9:
+        add([(n - 9, 4), (n - 4, 4)], 'n')
+        add([(n - 4, 4), (n - 9, 4)], 'i', access='rw')
+    return Struct(n, fs, family='MIX', passes=[('full', 'full')] if n <= 16 else [('alpha', 'alpha')])
+
+
+def compositions(n, maxparts):
+    def rec(rem, parts):
+        if rem == 0:
+            yield list(parts)
+            return
+        if len(parts) == maxparts:
+            return
+        for p in range(1, rem + 1):
+            parts.append(p)
+            yield from rec(rem - p, parts)
+            parts.pop()
+    yield from rec(n, [])
+
+
+def _kind(w, salt):
+    ks = L.kinds_for(w)
+    return ks[salt % len(ks)]
+
+
+def builder_structs(tier):
+    out = []
+    maxn = 8 if tier == 'quick' else 10
+    salt = 0
+    for n in range(1, maxn + 1):
+        m = mask(n)
+        for comp in compositions(n, 4):
+            salt += 1
+            lo, parts = 0, []
+            for w in comp:
+                parts.append((lo, w))
+                lo += w
+            def mkf(idx_list, ro=None, order=None):
+                fs = []
+                for j in idx_list:
+                    lo_, w_ = parts[j]
+                    fs.append(Field([(lo_, w_)], _kind(w_, salt + j), access=('r' if j == ro else 'rw'), family='BLD'))
+                if order == 'rev':
+                    fs.reverse()
+                elif order == 'rot' and len(fs) > 1:
+                    fs = fs[1:] + fs[:1]
+                return fs
+            allidx = list(range(len(parts)))
+            # (a) complete, no default
+            out.append(Struct(n, mkf(allidx), family='BLDFULL', has_builder=True))
+            if len(parts) > 1:
+                out.append(Struct(n, mkf(allidx, order='rev' if salt % 2 else 'rot'), family='BLDFULL', has_builder=True))
+            # (b) with a default whose bits lie also in a gap / read-only part / above
+            dv = (0xA5C3 ^ (salt * 0x1d)) & m
+            if dv == 0:
+                dv = m
+            out.append(Struct(n, mkf(allidx), default=dv, family='BLDDEF', has_builder=True, default_sep=':' if salt % 3 == 0 else '='))
+            if len(parts) > 1:
+                gap = salt % len(parts)
+                out.append(Struct(n, mkf(allidx, ro=gap), default=m, family='BLDGAP', has_builder=True))
+                out.append(Struct(n, mkf([j for j in allidx if j != gap], order='rev' if salt % 2 == 0 else None), default=dv | (mask(parts[gap][1]) << parts[gap][0]),
+                                  family='BLDGAP', has_builder=True, default_form='const' if salt % 2 else 'lit'))
+    # arrays of every K for bool / u2 / u4 elements on u8 / u16
+    for n in (8, 16):
+        for w, kind in ((1, 'b'), (1, 'u'), (2, 'u'), (4, 'u')):
+            for K in range(2, n // w + 1):
+                for stride in sorted({w, w + 1}):
+                    if (K - 1) * stride + w > n:
+                        continue
+                    f = Field([(0, w)], kind, arr=(K, stride), family='BLDARR', stride_explicit=(stride != w))
+                    complete = (stride == w and K * w == n)
+                    if complete:
+                        out.append(Struct(n, [f], family='BLDARR', has_builder=True))
+                    out.append(Struct(n, [f], default=(0x5AA5 & mask(n)), family='BLDARR', has_builder=True))
+                    # array + a scalar after it
+                    rest = n - ((K - 1) * stride + w)
+                    if rest >= 1:
+                        g = Field([(n - rest, rest)], _kind(rest, K), family='BLDARR')
+                        out.append(Struct(n, [g, f] if K % 2 else [f, g], default=(0x0FF0 & mask(n)) if not (complete) else None, family='BLDARR', has_builder=True))
+    # wide bases: bool / u8 arrays with many elements
+    for K in (2, 3, 4, 5, 7, 8, 16, 32, 64, 128):
+        for n in (32, 64, 128) + ((33, 100) if tier == 'thorough' else ()):
+            if K <= n:
+                f = Field([(0, 1)], 'b', arr=(K, 1), family='BLDWIDE', stride_explicit=False)
+                out.append(Struct(n, [f], default=(0xFEDCBA9876543210FEDCBA9876543210 & mask(n)) if K != n else None, family='BLDWIDE', has_builder=True))
+            if K * 8 <= n:
+                f = Field([(0, 8)], 'n' if K % 2 else 'i', arr=(K, 8), family='BLDWIDE', stride_explicit=False)
+                out.append(Struct(n, [f], default=None if K * 8 == n else 1 << (n - 1), family='BLDWIDE', has_builder=True))
+            if K * 9 <= n:
+                f = Field([(n - K * 9, 8)], 'n', arr=(K, 9), family='BLDWIDE')
+                out.append(Struct(n, [f], default=mask(n), family='BLDWIDE', has_builder=True))
+    # multi-range, interleaved arrays, signed, enum steps, arbitrary-int bases
+    sp = []
+    sp.append(Struct(8, [Field([(4, 4), (0, 4)], 'n', family='BLDX')], family='BLDX', has_builder=True))
+    sp.append(Struct(8, [Field([(4, 4), (0, 4)], 'i', family='BLDX')], default=0x3c, family='BLDX', has_builder=True))
+    sp.append(Struct(4, [Field([(0, 1), (2, 1)], 'u', arr=(2, 1), family='BLDX')], family='BLDX', has_builder=True))
+    sp.append(Struct(16, [Field([(0, 1), (2, 1), (4, 1), (6, 1)], 'u', arr=(2, 1), family='BLDX'), Field([(8, 8)], 'i', family='BLDX')], family='BLDX', has_builder=True))
+    sp.append(Struct(16, [Field([(1, 1), (3, 1)], 'u', arr=(2, 4), family='BLDX'), Field([(8, 4), (12, 4)], 'n', family='BLDX')], default=0xFFFF, family='BLDX', has_builder=True))
+    sp.append(Struct(12, [Field([(0, 2)], 'e', enum=ex_enum(2), family='BLDX'), Field([(2, 3)], 'o', enum=ne_enum(3), family='BLDX'), Field([(5, 7)], 'u', family='BLDX')], family='BLDX', has_builder=True))
+    sp.append(Struct(12, [Field([(9, 3)], 'o', enum=ne_enum(3), family='BLDX'), Field([(0, 8)], 'i', family='BLDX')], default=0x100, family='BLDX', has_builder=True))
+    sp.append(Struct(24, [Field([(16, 8)], 'i', family='BLDX'), Field([(0, 16)], 'i', family='BLDX')], family='BLDX', has_builder=True))
+    sp.append(Struct(24, [Field([(8, 8)], 'c', inner_n=8, family='BLDX'), Field([(23, 1)], 'b', family='BLDX')], default=0x7F00FF, family='BLDX', has_builder=True))
+    sp.append(Struct(100, [Field([(0, 64)], 'n', family='BLDX'), Field([(64, 36)], 'u', family='BLDX')], family='BLDX', has_builder=True))
+    sp.append(Struct(100, [Field([(99, 1)], 'b', family='BLDX'), Field([(3, 64)], 'i', family='BLDX')], default=(1 << 98) | 5, family='BLDX', has_builder=True, default_form='const'))
+    sp.append(Struct(128, [Field([(0, 128)], 'n', family='BLDX')], family='BLDX', has_builder=True))
+    sp.append(Struct(128, [Field([(0, 128)], 'i', family='BLDX')], default=7, family='BLDX', has_builder=True))
+    sp.append(Struct(127, [Field([(0, 127)], 'u', family='BLDX')], family='BLDX', has_builder=True))
+    sp.append(Struct(64, [Field([(32, 32), (0, 32)], 'n', family='BLDX')], family='BLDX', has_builder=True))
+    sp.append(Struct(32, [], default=0xdeadbeef, family='BLDX', has_builder=True))                 # no writable field at all
+    sp.append(Struct(32, [Field([(0, 8)], 'n', access='r', family='BLDX')], default=0x12345678, family='BLDX', has_builder=True))
+    out += sp
+    return out
+
+
+def mix_builder_struct(n):
+    """non-overlapping layout with a builder for the product machine (builder chain as one action)"""
+    fs = [Field([(0, 1)], 'b', family='MIXB')]
+    if n >= 4:
+        fs.append(Field([(1, 2)], 'u', family='MIXB'))
+    if n >= 14:
+        fs.append(Field([(n - 8, 8)], 'i', family='MIXB'))
+        fs.append(Field([(3, 1)], 'u', arr=(2, 2), family='MIXB'))
+    elif n >= 6:
+        fs.append(Field([(n - 2, 2)], 'u', family='MIXB'))
+    return Struct(n, fs, default=mask(n) & 0xC3C3C3C3C3C3C3C3C3C3C3C3C3C3C3C3, family='MIXB', has_builder=True,
+                  passes=[('full', 'full')] if n <= 16 else [('alpha', 'alpha')])
+
+
+def mix_set(tier):
+    structs = []
+    wide = [n for n in L.wide_bases(tier)]
+    for n in list(range(1, 17)) + wide:
+        structs.append(mix_struct(n))
+        structs.append(mix_builder_struct(n))
+    return structs
